@@ -244,12 +244,16 @@ def run_check(pid, tier, seed):
         for k in known:
             if k.get('kind') == 'known' and mod.matches_known(k, fail):
                 known_hits.append((k, fail))
-                return
+                return 'known'
         violations.append(fail)
+        return 'violation'
 
+    unexplained_cases = []        # mismatching cases for which the oracle found no failure (so no listed finding explains them either)
     if broken:
-        seen = set()
-        for ci, diffs in mismatching[:50]:
+        seen = {}
+        for n_, (ci, diffs) in enumerate(mismatching):
+            # the first 50 always; beyond that only while nothing has been found to report (a listed finding must not shadow the rest)
+            if n_ >= 50 and (violations or n_ >= 400): break
             try:
                 f = mod.oracle(cases[ci])
             except Exception as e:
@@ -258,9 +262,10 @@ def run_check(pid, tier, seed):
             if f:
                 d = digest(f.get('key', f))
                 if d not in seen:
-                    seen.add(d)
-                    classify(f)
-        if not violations and not known_hits and hasattr(mod, 'search'):
+                    seen[d] = classify(f)
+            else:
+                unexplained_cases.append(ci)
+        if not violations and (not known_hits or unexplained_cases) and hasattr(mod, 'search'):
             try:
                 for f in mod.search(Rng(seed + 17), tier) or []:
                     classify(f)
@@ -299,6 +304,10 @@ def run_check(pid, tier, seed):
     elif broken and known_hits:
         # everything that broke is explained by listed findings only if no unexplained mismatch remains
         unexplained = [b for b in broken if b['kind'] != 'correspondence']
+        if unexplained_cases:
+            ci = unexplained_cases[0]
+            unexplained.append({'kind': 'correspondence', 'what': f'model and implementation differ on {len(unexplained_cases)} case(s) that no listed finding explains',
+                                'first': {'case': cases[ci].get('desc', cases[ci]['lines'])}})
         if unexplained:
             rp = write_replay(pid, {'property': pid, 'kind': 'no-failing-input-found', 'broken': unexplained, 'seed': seed, 'tier': tier})
             vio_lines.append(f'VIOLATION property={pid} replay={rp} no-failing-input-found')
